@@ -187,13 +187,14 @@ where
                     print_use_target_wildcard(children, ctx, allocator)
                 }
                 SyntaxKind::VisibilityPub => print_visibility_pub(children, ctx, allocator),
-                SyntaxKind::MatchExpr
-                | SyntaxKind::MatchArm
-                | SyntaxKind::MatchArmList
-                | SyntaxKind::MatchPattern
-                | SyntaxKind::ConstructorPattern
-                | SyntaxKind::TypeDecl
-                | SyntaxKind::VariantDef => print_leaf_children(children, ctx, allocator),
+                SyntaxKind::MatchExpr => print_match_expr(children, ctx, allocator),
+                SyntaxKind::MatchArmList => print_match_arm_list(children, ctx, allocator),
+                SyntaxKind::MatchArm | SyntaxKind::TypeDecl | SyntaxKind::VariantDef => {
+                    print_spaced_children(children, ctx, allocator)
+                }
+                SyntaxKind::MatchPattern | SyntaxKind::ConstructorPattern => {
+                    print_leaf_children(children, ctx, allocator)
+                }
                 SyntaxKind::Error => allocator.text("/* error */"),
             }
         }
@@ -299,6 +300,99 @@ where
         .map(|&child| cst_to_doc(child, ctx, allocator))
         .collect();
     allocator.concat(docs)
+}
+
+/// Print the children of a keyword-led construct (match arm, type declaration, variant definition) on one
+/// line: keywords are followed by a space, `=`, `=>` and `|` are surrounded by spaces, commas are followed by one.
+fn print_spaced_children<'a, D, A>(
+    children: &[GreenNodeId],
+    ctx: &PrintContext,
+    allocator: &'a D,
+) -> DocBuilder<'a, D, A>
+where
+    D: DocAllocator<'a, A>,
+    D::Doc: Clone + Pretty<'a, D, A>,
+    A: Clone,
+{
+    let mut result = allocator.nil();
+    for &child in children.iter() {
+        let doc = cst_to_doc(child, ctx, allocator);
+        let kind = match ctx.arena.get(child) {
+            mimium_lang::compiler::parser::green::GreenNode::Token { token_index, .. } => {
+                Some(ctx.tokens[*token_index].kind)
+            }
+            _ => None,
+        };
+        result = match kind {
+            Some(TokenKind::Match | TokenKind::Type | TokenKind::Rec | TokenKind::Alias) => {
+                result.append(doc).append(allocator.space())
+            }
+            Some(TokenKind::Assign | TokenKind::FatArrow | TokenKind::LambdaArgBeginEnd) => result
+                .append(allocator.space())
+                .append(doc)
+                .append(allocator.space()),
+            Some(TokenKind::Comma) => result.append(doc).append(allocator.space()),
+            _ => result.append(doc),
+        };
+    }
+    result
+}
+
+/// Print a match expression: `match scrutinee {` arms, one per line `}`
+fn print_match_expr<'a, D, A>(
+    children: &[GreenNodeId],
+    ctx: &PrintContext,
+    allocator: &'a D,
+) -> DocBuilder<'a, D, A>
+where
+    D: DocAllocator<'a, A>,
+    D::Doc: Clone + Pretty<'a, D, A>,
+    A: Clone,
+{
+    let mut result = allocator.nil();
+    for &child in children.iter() {
+        let doc = cst_to_doc(child, ctx, allocator);
+        result = match ctx.arena.get(child) {
+            mimium_lang::compiler::parser::green::GreenNode::Token { token_index, .. } => {
+                match ctx.tokens[*token_index].kind {
+                    TokenKind::Match => result.append(doc).append(allocator.space()),
+                    TokenKind::BlockBegin => result.append(allocator.space()).append(doc),
+                    TokenKind::BlockEnd => result.append(allocator.hardline()).append(doc),
+                    _ => result.append(doc),
+                }
+            }
+            mimium_lang::compiler::parser::green::GreenNode::Internal {
+                kind: SyntaxKind::MatchArmList,
+                ..
+            } => result.append(doc.nest(get_indent_size() as isize)),
+            _ => result.append(doc),
+        };
+    }
+    result
+}
+
+/// Print the arms of a match expression, each on a line of its own (separating commas are kept as written)
+fn print_match_arm_list<'a, D, A>(
+    children: &[GreenNodeId],
+    ctx: &PrintContext,
+    allocator: &'a D,
+) -> DocBuilder<'a, D, A>
+where
+    D: DocAllocator<'a, A>,
+    D::Doc: Clone + Pretty<'a, D, A>,
+    A: Clone,
+{
+    let mut result = allocator.nil();
+    for &child in children.iter() {
+        let doc = cst_to_doc(child, ctx, allocator);
+        result = match ctx.arena.get(child) {
+            mimium_lang::compiler::parser::green::GreenNode::Internal { .. } => {
+                result.append(allocator.hardline()).append(doc)
+            }
+            _ => result.append(doc),
+        };
+    }
+    result
 }
 
 // ============================================================================
